@@ -86,6 +86,9 @@ func (x *inst) applyMgmt(ev string, f []string) {
 		err := x.guard(ev, func() error { return x.api().SetRevisionCounter(n) })
 		x.observe("%s -> %v", ev, err != nil)
 		valid := m.Open && m.Mode == "RW"
+		if x.cfg.ViaREST && m.Dirty && !m.Rebuilding {
+			valid = false // the REST action map does not offer setrevisioncounter in state dirty: 404, nothing changes
+		}
 		if valid && err != nil {
 			x.violate("setrev-failed", "setrev-failed", err.Error())
 		} else if !valid && err == nil {
